@@ -346,7 +346,7 @@ def _const_value(e):
 
 
 def dump_ast(driver_cpp, out_json, includes, defines=(), timeout=300):
-    cmd = ['clang++', '-std=c++17', '-fsyntax-only', '-Wno-unused-value', '-Wno-everything']
+    cmd = ['clang++', '-std=c++17', '-fsyntax-only', '-Wno-unused-value', '-Wno-everything', '-ferror-limit=0']
     for d in defines:
         cmd.append('-D' + d)
     for i in includes:
@@ -355,5 +355,5 @@ def dump_ast(driver_cpp, out_json, includes, defines=(), timeout=300):
     with open(out_json, 'w') as f:
         p = subprocess.run(cmd, stdout=f, stderr=subprocess.PIPE, text=True, timeout=timeout)
     if p.returncode != 0:
-        raise ExtractError('clang failed on driver %s:\n%s' % (driver_cpp, p.stderr[-4000:]))
+        raise ExtractError('clang failed on driver %s:\n%s' % (driver_cpp, p.stderr[-60000:]))
     return out_json
